@@ -279,7 +279,10 @@ func (ch *channel) Free() {
 
 // receive is called by the connection to receive a message.
 func (ch *channel) receive(msg pmpx.Message) status.Status {
-	s := ch.acquire()
+	s, ok := ch.tryAcquire()
+	if !ok {
+		return status.OK // channel already ended and released, drop the message
+	}
 	defer ch.release()
 
 	// Ignore messages if closed
@@ -319,6 +322,25 @@ func (ch *channel) acquire() *channelState {
 }
 
 // release decrements the internal refs counter.
+// tryAcquire increments the reference count unless the channel has already been released.
+// The receive loop can look up a channel right before its last reference is dropped.
+func (ch *channel) tryAcquire() (*channelState, bool) {
+	for {
+		refs := ch.refs.Load()
+		if refs <= 0 {
+			return nil, false
+		}
+		if !ch.refs.CompareAndSwap(refs, refs+1) {
+			continue
+		}
+		s := ch.state.Load()
+		if s == nil {
+			panic("acquire of freed channel")
+		}
+		return s, true
+	}
+}
+
 func (ch *channel) release() {
 	refs := ch.refs.Add(-1)
 	if refs > 0 {
